@@ -17,6 +17,11 @@ STDS = ["c++11", "c++14", "c++17", "c++20"]
 CXXS = ["g++", "clang++"]
 
 
+# scenario variants: the program uses nothing optional / uses exactly one optional feature (whose switch must be on)
+USES = [("none", None, None), ("plans", 0, "SCN_USE_PLANS"), ("serialization", 1, "SCN_USE_SERIALIZATION"),
+        ("history", 2, "SCN_USE_HISTORY"), ("log", 3, "SCN_USE_LOG")]
+
+
 def subset_name(mask):
     if mask == "ALL":
         return "ENABLE_ALL"
@@ -37,29 +42,50 @@ def run(prop, tier, seed, verdict, tree):
     headers = [("shipped", os.path.join(C.REPO, "include"), "ffsm2/machine.hpp"),
                ("development", os.path.join(C.REPO, "development"), "ffsm2/machine_dev.hpp")]
     masks = list(range(256)) + ["ALL"]
+
+    def has(mask, bit):
+        if bit is None:
+            return True
+        if mask == "ALL":
+            return bit in (0, 1, 2)          # FFSM2_ENABLE_ALL turns on plans, serialization, history (not logging)
+        return bool(mask >> bit & 1) or (bit == 3 and bool(mask >> 4 & 1))   # verbose implies the log interface
+
     configs = []
+    rng = random.Random(seed)
     if tier == "thorough":
-        for h in headers:
-            for cxx in CXXS:
-                for std in STDS:
-                    for m in masks:
-                        configs.append((m, std, cxx, h))
+        for use in USES:
+            for h in headers:
+                for cxx in CXXS:
+                    for std in STDS:
+                        for m in masks:
+                            if has(m, use[1]):
+                                configs.append((m, std, cxx, h, use))
         exhaustive = True
     else:
+        base = USES[0]
         for m in masks:
-            configs.append((m, "c++11", "g++", headers[0]))
-        rng = random.Random(seed)
-        rest = [(m, std, cxx, h) for h in headers for cxx in CXXS for std in STDS for m in masks
+            configs.append((m, "c++11", "g++", headers[0], base))
+        rest = [(m, std, cxx, h, base) for h in headers for cxx in CXXS for std in STDS for m in masks
                 if not (std == "c++11" and cxx == "g++" and h is headers[0])]
-        # always include the corners, then a seeded sample
-        corners = [(m, std, cxx, h) for h in headers for cxx in CXXS for std in ("c++11", "c++20") for m in (0, 255, "ALL")
+        corners = [(m, std, cxx, h, base) for h in headers for cxx in CXXS for std in ("c++11", "c++20") for m in (0, 255, "ALL")
                    if not (std == "c++11" and cxx == "g++" and h is headers[0])]
         configs += corners + rng.sample(rest, 64)
+        # programs that use one optional feature: reference (only that switch), everything on, and a seeded sample
+        for use in USES[1:]:
+            elig = [m for m in masks if has(m, use[1])]
+            only = 1 << use[1]
+            singles = [only | (1 << j) for j in range(8) if j != use[1]]     # the feature used + exactly one other switch
+            pick = [only, 255] + (["ALL"] if has("ALL", use[1]) else []) + singles + \
+                rng.sample([m for m in elig if m not in (only, 255, "ALL") and m not in singles], 22)
+            for m in pick:
+                configs.append((m, "c++11", "g++", headers[0], use))
+            for m in rng.sample(elig, 6):
+                configs.append((m, rng.choice(STDS), "clang++", rng.choice(headers), use))
         exhaustive = False
     seen = set()
     uniq = []
     for c in configs:
-        k = (c[0], c[1], c[2], c[3][0])
+        k = (c[0], c[1], c[2], c[3][0], c[4][0])
         if k not in seen:
             seen.add(k)
             uniq.append(c)
@@ -68,30 +94,31 @@ def run(prop, tier, seed, verdict, tree):
     src = os.path.join(C.HARNESS, "cfgscenario.cpp")
 
     def one(idx_cfg):
-        idx, (m, std, cxx, h) = idx_cfg
+        idx, (m, std, cxx, h, use) = idx_cfg
         exe = os.path.join(workdir, "s%d" % idx)
-        cmd = [cxx, "-std=" + std, "-O0", "-w", "-I" + h[1], '-DVERIF_FFSM2_HEADER="%s"' % h[2]] + defines(m) + [src, "-o", exe]
+        cmd = [cxx, "-std=" + std, "-O0", "-w", "-I" + h[1], '-DVERIF_FFSM2_HEADER="%s"' % h[2]] + defines(m) + \
+              (["-D" + use[2]] if use[2] else []) + [src, "-o", exe]
         p = subprocess.run(cmd, capture_output=True, text=True, errors="replace")
         if p.returncode != 0:
             err = next((l for l in p.stderr.splitlines() if "error" in l), p.stderr[-300:])
-            return (m, std, cxx, h[0], "compile-error", err[:300])
+            return (m, std, cxx, h[0], "compile-error", err[:300], use[0])
         out = b""
         try:
             # the scenario is run with four seeds (different guard/transition sequences)
             for sseed in (0, 1 + seed % 1000, 2 + seed % 1000, 3 + seed % 1000):
                 r = subprocess.run([exe, str(sseed)], capture_output=True, timeout=120)
                 if r.returncode != 0:
-                    return (m, std, cxx, h[0], "run-rc=%d" % r.returncode, r.stderr.decode("utf-8", "replace")[-300:])
+                    return (m, std, cxx, h[0], "run-rc=%d" % r.returncode, r.stderr.decode("utf-8", "replace")[-300:], use[0])
                 out += r.stdout
         except subprocess.TimeoutExpired:
-            return (m, std, cxx, h[0], "timeout", "")
+            return (m, std, cxx, h[0], "timeout", "", use[0])
         finally:
             try:
                 os.unlink(exe)
             except OSError:
                 pass
         last = out.strip().splitlines()[-1].decode("utf-8", "replace") if out.strip() else ""
-        return (m, std, cxx, h[0], "ok", hashlib.sha256(out).hexdigest()[:16] + " " + last)
+        return (m, std, cxx, h[0], "ok", hashlib.sha256(out).hexdigest()[:16] + " " + last, use[0])
 
     results = C.parallel(one, list(enumerate(configs)))
     shutil.rmtree(workdir, ignore_errors=True)
@@ -127,25 +154,38 @@ def run(prop, tier, seed, verdict, tree):
         verdict.violation("scenario-crashed|%s|%s" % (subset_name(r[0]), r[4]),
                           "scenario built with %s %s %s [%s] ended with %s: %s" % (subset_name(r[0]), r[1], r[2], r[3], r[4], r[5]))
 
-    # 2. same observable behaviour everywhere
-    ref = next((r for r in ok if r[0] == 0 and r[1] == "c++11" and r[2] == "g++" and r[3] == "shipped"), ok[0] if ok else None)
+    # 2. same observable behaviour everywhere (within each scenario variant)
     digests = {}
-    for r in ok:
-        digests.setdefault(r[5], []).append(r)
-    if ref is not None:
-        differ = [r for r in ok if r[5] != ref[5]]
-        base_differ = [r for r in differ if r[0] == 0]
-        for r in base_differ[:4]:
-            verdict.violation("trace-differs|none|%s|%s|%s" % (r[2], r[1], r[3]),
-                              "feature-free build %s %s [%s header] behaves differently from the reference build: %s vs %s"
-                              % (r[2], r[1], r[3], r[5], ref[5]))
-        for s, rs in minimal_sets([r for r in differ if r[0] != 0]):
-            if not s:
-                continue
-            name = "+".join(SHORT[i] for i in sorted(s))
-            verdict.violation("trace-differs|" + name,
-                              "enabling %s changes the observable trace of a program that does not use it (%s %s [%s]): %s vs reference %s"
-                              % (name, rs[0][2], rs[0][1], rs[0][3], rs[0][5], ref[5]))
+    ref = None
+    for use in USES:
+        grp = [r for r in ok if r[6] == use[0]]
+        if not grp:
+            continue
+        only = 0 if use[1] is None else 1 << use[1]
+        gref = next((r for r in grp if r[0] == only and r[1] == "c++11" and r[2] == "g++" and r[3] == "shipped"), grp[0])
+        if use[1] is None:
+            ref = gref
+        for r in grp:
+            digests.setdefault((use[0], r[5]), []).append(r)
+        differ = [r for r in grp if r[5] != gref[5]]
+        for r in [r for r in differ if r[0] == gref[0]][:4]:
+            verdict.violation("trace-differs|%s|%s|%s|%s|%s" % (subset_name(r[0]), r[2], r[1], r[3], use[0]),
+                              "the same switch set %s built with %s %s [%s header] behaves differently from the reference build (scenario using: %s): %s vs %s"
+                              % (subset_name(r[0]), r[2], r[1], r[3], use[0], r[5], gref[5]))
+        extra = [(as_set(r[0]) - as_set(gref[0]), r) for r in differ if r[0] != gref[0] and r[0] != "ALL"]
+        sets = {}
+        for sset, r in extra:
+            sets.setdefault(frozenset(sset), []).append(r)
+        mins = [x for x in sets if not any(o < x for o in sets)]
+        for x in mins:
+            rs = sets[x]
+            name = "+".join(SHORT[i] for i in sorted(x)) or "none"
+            verdict.violation("trace-differs|%s|uses=%s" % (name, use[0]),
+                              "enabling %s changes the observable trace of a program that does not use it (the program uses: %s; %s %s [%s]): %s vs reference %s"
+                              % (name, use[0], rs[0][2], rs[0][1], rs[0][3], rs[0][5], gref[5]))
+        for r in [r for r in differ if r[0] == "ALL"][:1]:
+            if not mins:
+                verdict.violation("trace-differs|ENABLE_ALL|uses=%s" % use[0], "FFSM2_ENABLE_ALL changes the trace of the %s-using scenario: %s vs %s" % (use[0], r[5], gref[5]))
 
     # 3. the shipped header is the amalgamation of the sources
     if not tree.regen_ok:
@@ -156,11 +196,11 @@ def run(prop, tier, seed, verdict, tree):
 
     cov = verdict.coverage
     cov["evaluations"] = len(results)
-    cov["distinct_nontrivial"] = len(set((r[0], r[1], r[2], r[3]) for r in ok if r[0] != 0))
+    cov["distinct_nontrivial"] = len(set((r[0], r[1], r[2], r[3], r[6]) for r in ok if r[0] != 0))
     cov["rule"] = ("a case = compile and run harness/cfgscenario.cpp (base API only, automatic + manual machine, payload + "
                    "payload-free, ~17k trace lines per seed, four scenario seeds) under one (switch subset, -std, compiler, header variant); compared: compiler "
                    "exit status and sha256 of the complete output; non-trivial = built, ran and at least one feature switch on; "
-                   "distinct by configuration tuple. Plus byte comparison of join.py output with the shipped header.")
+                   "distinct by configuration tuple. Besides the feature-free program, four variants of the scenario each USE one optional feature (plans / serialization / history / logging) and are compared across the combinations of the other switches. Plus byte comparison of join.py output with the shipped header.")
     cov["exhaustive"] = exhaustive
     cov["builds"] = len(results)
     cov["built_and_ran"] = len(ok)
@@ -171,5 +211,6 @@ def run(prop, tier, seed, verdict, tree):
     cov["standards"] = sorted(set(r[1] for r in results))
     cov["compilers"] = sorted(set(r[2] for r in results))
     cov["header_variants"] = sorted(set(r[3] for r in results))
-    cov["samples"] = [{"switches": subset_name(r[0]), "std": r[1], "cxx": r[2], "header": r[3], "result": r[4], "digest": r[5]}
+    cov["scenario_variants"] = sorted(set(r[6] for r in results))
+    cov["samples"] = [{"switches": subset_name(r[0]), "std": r[1], "cxx": r[2], "header": r[3], "uses": r[6], "result": r[4], "digest": r[5]}
                       for r in (results[:2] + results[len(results) // 2:len(results) // 2 + 2] + results[-2:])]
